@@ -307,7 +307,8 @@ class DiskFile(VirtualFileContainer):
                 preamble.read(self.buffer, self.seek_granule(starting_granule.int))
 
                 data_length = preamble.data_length.int
-                if data_length == 0:
+                if preamble.length == 0:
+                    # no preamble, no recorded length: the allocation table and directory entry give it
                     data_length = self.calculate_file_length(starting_granule.int, fat, bytes_in_last_sector.int)
 
                 file_data, post_pointer = self.read_data(
@@ -318,8 +319,11 @@ class DiskFile(VirtualFileContainer):
                 )
 
                 if preamble.is_ml():
+                    # the postamble follows the data in the file, which may be in the next granule of the chain
                     postamble = Postamble()
-                    postamble.read(self.buffer, post_pointer)
+                    postamble.read(
+                        self.read_from_chain(starting_granule.int, fat, preamble.length + data_length, postamble.length), 0
+                    )
                     exec_addr = postamble.exec_addr
 
                 coco_file = CoCoFile(
@@ -508,6 +512,36 @@ class DiskFile(VirtualFileContainer):
             granule_offset += DiskConstants.HALF_TRACK_LEN * 2
         return granule_offset
 
+    def read_from_chain(self, starting_granule, fat, offset, length):
+        """
+        Reads bytes of a file by their position in the file, following the chain of granules in the
+        File Allocation Table.
+
+        :param starting_granule: the first granule of the file
+        :param fat: the File Allocation Table data for the disk
+        :param offset: the offset into the file (preamble included) of the first byte to read
+        :param length: the number of bytes to read
+        :return: the bytes read
+        """
+        granule = starting_granule
+        while offset >= DiskConstants.HALF_TRACK_LEN:
+            granule = fat[granule]
+            offset -= DiskConstants.HALF_TRACK_LEN
+            if granule >= DiskConstants.TOTAL_GRANULES:
+                raise VirtualFileValidationError("Unable to read data - granule chain ends before the file does")
+        result = []
+        while length > 0:
+            pointer = self.seek_granule(granule) + offset
+            count = min(length, DiskConstants.HALF_TRACK_LEN - offset)
+            result.extend(self.buffer[pointer:pointer + count])
+            length -= count
+            offset = 0
+            if length > 0:
+                granule = fat[granule]
+                if granule >= DiskConstants.TOTAL_GRANULES:
+                    raise VirtualFileValidationError("Unable to read data - granule chain ends before the file does")
+        return result
+
     def read_data(self, starting_granule, fat, preamble, data_length=0):
         """
         Reads a collection of data from a disk image.
@@ -522,13 +556,13 @@ class DiskFile(VirtualFileContainer):
         file_data = []
         chunk_size = DiskConstants.HALF_TRACK_LEN
 
-        if len(self.buffer[pointer:]) < data_length:
-            raise VirtualFileValidationError("Unable to read data - insufficient bytes in buffer")
-
         # Skip over preamble if it exists
         if preamble:
             pointer += preamble.length
             chunk_size -= preamble.length
+
+        if len(self.buffer) - pointer < min(data_length, chunk_size):
+            raise VirtualFileValidationError("Unable to read data - insufficient bytes in buffer")
 
         # Check to see if we are reading more than one granule
         if data_length > chunk_size:
@@ -650,7 +684,15 @@ class DiskFile(VirtualFileContainer):
         if len(file_data) < (DiskConstants.HALF_TRACK_LEN - skip_bytes):
             pointer = self.write_bytes_to_buffer(pointer, file_data)
             if postamble:
-                postamble.write(self.buffer, pointer)
+                # the part of the postamble that does not fit in this granule goes to the next granule of the chain
+                postamble_bytes = [0] * postamble.length
+                postamble.write(postamble_bytes, 0)
+                room = DiskConstants.HALF_TRACK_LEN - skip_bytes - len(file_data)
+                self.write_bytes_to_buffer(pointer, postamble_bytes[:room])
+                if len(postamble_bytes) > room:
+                    if not allocated_granules:
+                        raise VirtualFileValidationError("Not enough granules to write postamble")
+                    self.write_bytes_to_buffer(self.seek_granule(allocated_granules[0]), postamble_bytes[room:])
         else:
             self.write_bytes_to_buffer(pointer, file_data[:DiskConstants.HALF_TRACK_LEN - skip_bytes])
             self.write_to_granules(
